@@ -54,13 +54,16 @@ def make_script(rng, beh):
         n = rng.randint(max(bi, n_prev), nsteps - 1)
         # the definition in force at step n
         body = [d for d in defs if d[1] == name and d[0] <= n][-1][2]
+        if any(k["kw"] == "WPIMULT" for k in body) and (any(k["kw"] == "WPIMULT" for k in blocks[n]) or any(a["n"] == n and a["wpimult"] for a in apps)):
+            continue        # WPIMULT is defined per report step (the property sets that interplay aside)
         needs = any(k.get("well") == "?" for k in body)
         pool = sorted(wells_at[n])
         if needs and not pool:
             continue
         m = rng.sample(pool, rng.randint(1 if needs else 0, len(pool))) if pool else []
         welpi = sorted({w for k in body if k["kw"] == "WELPI" for w in (m if k["well"] == "?" else [k["well"]])})
-        apps.append({"n": n, "action": name, "wells": sorted(m), "inline": inline_text(body, m), "welpi": welpi})
+        apps.append({"n": n, "action": name, "wells": sorted(m), "inline": inline_text(body, m), "welpi": welpi,
+                     "wpimult": any(k["kw"] == "WPIMULT" for k in body), "compdat": sorted({k["well"] for k in body if k["kw"] == "COMPDAT"})})
         n_prev = n
     if not apps:
         return None
